@@ -122,8 +122,12 @@ fn defaulted(sp: &SamplePoint, s: &HitSampleInfo) -> HitSampleInfo {
     o
 }
 
-fn near_but_not_equal(cp: &ControlPoints, t: f64) -> bool {
-    cp.sample_points.iter().any(|p| (p.time - t).abs() < 1e-6 && p.time != t)
+/// A lookup instant that lies within 1e-6 ms of a sample point. `derived` = the instant comes out of a
+/// division (slider node / end times): then even exact equality is a rounding accident that a shifted
+/// copy of the map need not reproduce, so it is ambiguous too. Instants built from whole numbers only
+/// (object start + 5) compare exactly in every shifted copy.
+fn near_but_not_equal(cp: &ControlPoints, t: f64, derived: bool) -> bool {
+    cp.sample_points.iter().any(|p| (p.time - t).abs() < 1e-6 && (derived || p.time != t))
 }
 
 /// returns true when a lookup instant was numerically ambiguous (metamorphic check is skipped then)
@@ -230,10 +234,13 @@ fn recompute(ctx: &mut Ctx, index: u64, text: &str) -> bool {
                     // 4. node samples: sample point active 5 ms after each node
                     for i in 0..rs.node_samples.len().min(200) {
                         let t = ro.start_time + i as f64 * dur / spans + 5.0;
-                        if near_but_not_equal(cp, t) {
+                        // node 0 is the start itself (whole number + 5); later nodes are derived by division
+                        if near_but_not_equal(cp, t, i > 0) {
                             ambiguous = true;
                             ctx.count("ambiguous_lookups");
-                            continue;
+                            if cp.sample_points.iter().any(|p| p.time != t && (p.time - t).abs() < 1e-6) {
+                                continue;
+                            }
                         }
                         let sp = sp_at(cp, t);
                         let exp: Vec<HitSampleInfo> = rs.node_samples[i].iter().map(|s| defaulted(&sp, s)).collect();
@@ -248,10 +255,13 @@ fn recompute(ctx: &mut Ctx, index: u64, text: &str) -> bool {
                 _ => {}
             }
             let t = end + 5.0;
-            if near_but_not_equal(cp, t) {
+            let derived = matches!(ro.kind, HitObjectKind::Slider(_));
+            if near_but_not_equal(cp, t, derived) {
                 ambiguous = true;
                 ctx.count("ambiguous_lookups");
-                continue;
+                if cp.sample_points.iter().any(|p| p.time != t && (p.time - t).abs() < 1e-6) {
+                    continue;
+                }
             }
             if cp.sample_points.iter().any(|p| p.time == t) {
                 ctx.count("lookups_exactly_on_a_sample_point");
